@@ -153,3 +153,32 @@ Definition derive_all (fn : table) :=
   let en := mk_en fn in let fe := mk_fe fn en in
   let ef := mk_ef fe (Z.of_nat (length en)) in let ff := mk_ff fe in
   (en, fe, ef, ff, topology_okb fn en fe ef ff).
+
+(* ---------------- the derivations as coded, given the tables they read ---------------- *)
+(* make_face_edge_array: node_pair_to_edge_index = {frozenset(edge): index}: a later edge with the same
+   unordered pair overwrites an earlier one, so the LAST matching row wins *)
+Definition find_edge_last (en : table) (p : Z * Z) : Z :=
+  match positions_where (fun r => match r with [a; b] => same_pair p (a, b) | _ => false end) 0 en with
+  | e :: r => last r e | [] => -1 end.
+Definition mk_fe_impl (fn en : table) : table := map (fun f => map (find_edge_last en) (node_pairs f)) fn.
+
+(* make_face_face_array: for each edge with two faces, in edge order, append each face to the other's row *)
+Definition append_at (t : table) (k x : Z) : table :=
+  map (fun kr => if Z.eqb (fst kr) k then snd kr ++ [x] else snd kr) (enum 0 t).
+Definition mk_ff_impl (nf : nat) (ef : table) : table :=
+  fold_left (fun ff r => match r with [a; b] => append_at (append_at ff a b) b a | _ => ff end) ef (repeat [] nf).
+
+(* has_edge_dimension / edge_dimension: decided from the mesh attributes and which named variables exist *)
+Record mesh_attrs := {
+  a_edge_dimension : option Z;        (* edge_dimension attribute: a dimension name *)
+  a_edge_node : option (option Z);    (* edge_node_connectivity attribute; inner = first dim of that variable if it exists *)
+  a_edge_face : option (option Z)
+}.
+Definition has_edge_dimension (a : mesh_attrs) : bool :=
+  match a_edge_dimension a with Some _ => true | None =>
+    match a_edge_node a with Some (Some _) => true | _ =>
+      match a_edge_face a with Some (Some _) => true | _ => false end end end.
+Definition edge_dimension (a : mesh_attrs) : option Z :=
+  match a_edge_dimension a with Some d => Some d | None =>
+    match a_edge_node a with Some (Some d) => Some d | _ =>
+      match a_edge_face a with Some (Some d) => Some d | _ => None end end end.
